@@ -322,7 +322,11 @@ def _layout_files(L, f):
         "inc4": "m from-inc4\n",
         "inc3": "m from-inc3\n",
         "inc1": "m from-inc1\n%%include %s%s\nb1 changed\n%%include %s\n" % (rel(L, "inc1", "inc2"), f("include2"), rel(L, "inc1", "inc4")),
-        "conf": "m first\n<ts a>\n  k 1\n</ts>\n%%include %s%s\n%%include %s\nm last\n" % (rel(L, "conf", "inc1"), f("include"), rel(L, "conf", "inc3")),
+        "conf": "m first\n<ts a>\n  k 1\n</ts>\n%%include %s%s\n%%include %s\nm last\n%%include %s\n%%include %s\n"
+                % (rel(L, "conf", "inc1"), f("include"), rel(L, "conf", "inc3"),
+                   # a file may be included any number of times: the same one again, and one that an
+                   # included file has included already
+                   rel(L, "conf", "inc3"), rel(L, "conf", "inc4")),
     }
 
 
@@ -464,7 +468,7 @@ def check_layout(L, frag=None):
             out.append(("layout-config-rejected", repr(cfirst[1:])))
         else:
             out.extend(same_relative_config_probe(root, L, cpath, schema))
-            want_m = ["first", "from-inc1", "from-inc2", "from-inc4", "from-inc3", "last"]
+            want_m = ["first", "from-inc1", "from-inc2", "from-inc4", "from-inc3", "last", "from-inc3", "from-inc4"]
             got = cfirst[1]["attrs"].get("m")
             if got != want_m or cfirst[1]["attrs"].get("b1") != "changed" or cfirst[1]["attrs"].get("b2") != "two" \
                     or cfirst[1]["attrs"].get("b3") != "three":
